@@ -29,6 +29,12 @@ type ModelRunOptions struct {
 	Names     Names
 	StackOpts stacks.Options
 	Tolerate  Tolerate
+	// Setup is called once with the fresh session (e.g. to switch model modes for known findings).
+	Setup func(s *Session)
+	// Final is called when the program ended (also after a violation).
+	Final func(s *Session, o *ev.Outcome)
+	// BeforeStep is called before an op is executed.
+	BeforeStep func(s *Session, op prog.Op)
 	// AfterStep is called after every executed step (after the generic checks).
 	AfterStep func(s *Session, inst *stacks.Instance, sr *StepResult, o *ev.Outcome) (stop bool)
 	// Stats receives facts about the executed program.
@@ -79,6 +85,12 @@ func RunModelProgram(env *ev.Env, c ProgCase, opt ModelRunOptions) (o ev.Outcome
 	}()
 	side := prog.NewStorageSide(inst.Storage)
 	s := NewSession(names, side)
+	if opt.Setup != nil {
+		opt.Setup(s)
+	}
+	if opt.Final != nil {
+		defer func() { opt.Final(s, &o) }()
+	}
 	st := opt.Stats
 	if st == nil {
 		st = &ProgStats{}
@@ -129,6 +141,9 @@ func RunModelProgram(env *ev.Env, c ProgCase, opt ModelRunOptions) (o ev.Outcome
 			side.S = inst.Storage
 			st.Reopens++
 		default:
+			if opt.BeforeStep != nil {
+				opt.BeforeStep(s, op)
+			}
 			sr := s.Step(op)
 			o.Sub++
 			if sr.Expect.Err == "" && len(sr.Got) > 0 && sr.Got[0].Err == "" {
